@@ -109,7 +109,7 @@ type c13Case struct {
 }
 
 func c13List(tier string) []c13Case {
-	var out []c13Case
+	var out, arity4 []c13Case
 	for _, b := range c13Bytes(tier) {
 		out = append(out, c13Case{bytes: b, split: -1})
 		step := 1
@@ -137,8 +137,10 @@ func c13List(tier string) []c13Case {
 				for _, c := range vals3 {
 					out = append(out, c13Case{args: append(append([]string{}, cmd.words...), a, b, c)})
 					if tier == "thorough" {
+						// arity 4: by far the largest part; it goes to the END of the list, so that a time budget that
+						// runs out cuts this part and not the others
 						for _, d := range c13ValuesSmall {
-							out = append(out, c13Case{args: append(append([]string{}, cmd.words...), a, b, c, d)})
+							arity4 = append(arity4, c13Case{args: append(append([]string{}, cmd.words...), a, b, c, d)})
 						}
 					}
 				}
@@ -242,7 +244,7 @@ func c13List(tier string) []c13Case {
 			addArgs(append(append([]string{}, t...), v))
 		}
 	}
-	return out
+	return append(out, arity4...)
 }
 
 // c13Huge: argument positions whose value is by design the size of the result (a string or
